@@ -43,38 +43,39 @@ type pathResult struct {
 
 // shared is the state shared by all workers of one harness run.
 type shared struct {
-	prog     *ssa.Program
-	pkg      *ssa.Package
-	harness  *ssa.Function
-	cfg      *runConfig
-	trace    bool
-	mu       sync.Mutex
-	queue    [][]decision
-	idle     int
-	stop     bool
-	covers   map[string]int
-	fnCalls  map[string]int64
-	stubs    map[string]int64
-	results  map[string]int
-	reasons  map[string]int
-	viols    []*violation
-	paths    int64
-	nodes    int64
-	solverQ  int64
-	solverT  time.Duration
-	samples  []map[string]any
-	initPol  map[string]string
-	hIcept   map[string]extFn
-	cond     *sync.Cond
-	active   int
-	maxDepth int
-	steps    int64
-	unknowns int64
+	prog           *ssa.Program
+	pkg            *ssa.Package
+	harness        *ssa.Function
+	cfg            *runConfig
+	trace          bool
+	mu             sync.Mutex
+	queue          [][]decision
+	idle           int
+	stop           bool
+	covers         map[string]int
+	fnCalls        map[string]int64
+	stubs          map[string]int64
+	results        map[string]int
+	reasons        map[string]int
+	viols          []*violation
+	paths          int64
+	nodes          int64
+	solverQ        int64
+	solverT        time.Duration
+	samples        []map[string]any
+	initPol        map[string]string
+	hIcept         map[string]extFn
+	cond           *sync.Cond
+	active         int
+	maxDepth       int
+	steps          int64
+	unknowns       int64
 	assertsChecked int64
-	assertsUnsat int64
-	assertSites map[string]int64
-	violSigs map[string]int
-	fnInfos  sync.Map
+	assertsUnsat   int64
+	assertSites    map[string]int64
+	violSigs       map[string]int
+	fnInfos        sync.Map
+	fnNames        sync.Map
 }
 
 func (sh *shared) harnessIntercept(fn *ssa.Function) extFn {
@@ -99,10 +100,10 @@ func (sh *shared) noteStub(ex *Exec, fn *ssa.Function) {
 }
 
 type Exec struct {
-	sh   *shared
-	tt   *TermTable
-	sol  *Solver
-	id   int
+	sh  *shared
+	tt  *TermTable
+	sol *Solver
+	id  int
 
 	// per path
 	globals    map[*ssa.Global]*value
@@ -127,16 +128,19 @@ type Exec struct {
 	clock      clockState
 	syncs      map[*value]*syncObj
 	extra      map[string]any
+	icept      map[string]value
 	mapNondet  bool
+	mapReverse bool
+	mapExclude []string
 	crashAt    value
 	fxCount    int
 	notes      []string
 	ufConcrete map[string]func([]uint64) (uint64, bool)
 
 	// per worker
-	extCache map[*ssa.Function]extFn
-	fnCalls  map[*ssa.Function]int64
-	stubHits map[*ssa.Function]int64
+	extCache           map[*ssa.Function]extFn
+	fnCalls            map[*ssa.Function]int64
+	stubHits           map[*ssa.Function]int64
 	runtimeErrorString types.Type
 }
 
@@ -181,6 +185,9 @@ func (ex *Exec) ensureInit(pkg *ssa.Package, why *ssa.Global) {
 	switch pol {
 	case "run":
 		ex.pkgInit[pkg] = 1
+		savedMN := ex.mapNondet
+		ex.mapNondet = false // package initialisation is not part of the explored nondeterminism
+		defer func() { ex.mapNondet = savedMN }()
 		// allocate all globals first (zero) so init stores land in them
 		for _, m := range pkg.Members {
 			if g, ok := m.(*ssa.Global); ok {
@@ -587,7 +594,10 @@ func (ex *Exec) resetPath(prefix []decision) {
 	ex.clock = clockState{now: 1_700_000_000_000_000_000}
 	ex.syncs = map[*value]*syncObj{}
 	ex.extra = map[string]any{}
+	ex.icept = nil
 	ex.mapNondet = false
+	ex.mapReverse = false
+	ex.mapExclude = nil
 	ex.crashAt = nil
 	ex.fxCount = 0
 	ex.notes = nil
@@ -635,9 +645,13 @@ func (ex *Exec) explore(start []decision) {
 		}
 		d := ex.trail[i]
 		nd := decision{Kind: d.Kind, Val: d.Val, site: d.site}
-		if d.Kind == 'b' {
+		switch d.Kind {
+		case 'b':
 			nd.Alt = 1 - d.Alt
-		} else {
+		case 'c':
+			nd.Alt = d.Alt + 1
+			nd.other = nd.Alt+1 < int(d.Val)
+		default:
 			nd.Alt = 1
 		}
 		// earlier decisions keep their 'other' flags (still pending for this worker)
